@@ -353,6 +353,20 @@ impl<T: RcObject> AtomicRc<T> {
     }
 }
 
+#[cfg(feature = "circ_verif")]
+impl<T: RcObject> AtomicRc<T> {
+    pub(crate) fn verif_addr(&self) -> usize {
+        &self.link as *const _ as usize
+    }
+}
+
+#[cfg(feature = "circ_verif")]
+impl<T: RcObject> Rc<T> {
+    pub(crate) fn verif_word(&self) -> usize {
+        self.ptr.verif_word()
+    }
+}
+
 impl<T: RcObject> Drop for AtomicRc<T> {
     #[inline(always)]
     fn drop(&mut self) {
